@@ -80,6 +80,7 @@ WitnessLaws ==
         \cup {Case(f, s, p, E, k, 0, E, E) : f \in {"leftpad", "rightpad"}, p \in P2, k \in (-1)..(n + 3)}
         \cup {Case(f, s, p, q, 0, 0, E, E) : f \in {"ssub", "gssub"}, p \in P2, q \in T2}
         \cup {Case(f, s, p, E, 0, 0, E, E) : f \in {"index", "contains", "dot"}, p \in P2}
+        \cup {Case("literal", s, E, E, 0, 0, E, E)}
         \cup {Case(f, s, sep, E, 0, 0, E, E) : f \in {"splitax", "splita", "splitnv", "splitnvx", "join_split"}, sep \in {<<"comma">>, <<"e2">>}}
   IN \A c \in cases : Allowed(c, Witness(c))
 
